@@ -1,10 +1,8 @@
 package redisemu
 
 import (
-	"math/rand"
 	"sync"
 	"sync/atomic"
-	"time"
 
 	"github.com/jimsnab/go-lane"
 )
@@ -43,6 +41,7 @@ type (
 		cmdQueue        *[]*cmdContext
 		cmdQueueError   bool // a command was rejected while queueing; EXEC must discard the transaction
 		watches         map[watchKey]uint64
+		captureMu       sync.Mutex // guards blocked, unblockPending and the unblockCh mailbox
 		blocked         int32
 		unblockPending  int32
 		unblockCh       chan unblockReason
@@ -119,133 +118,60 @@ func (cs *clientState) unregister() {
 	infoMu.Unlock()
 }
 
-func (cs *clientState) setLock(from, to int32) {
-	us := time.Microsecond
-	for {
-		if atomic.CompareAndSwapInt32(&cs.blocked, from, to) {
-			return
-		}
-		if us < 4000*time.Microsecond {
-			us *= 2
-		} else {
-			us = time.Microsecond * time.Duration(rand.Intn(200))
-		}
-		time.Sleep(us)
-	}
-}
-
 // Captures the client state in order to wait for data-ready event, a timeout,
 // or an explicit unblock signal. A client can be captured by one blocking command.
 // Additional commands cannot be processed until the blocking command completes.
 func (cs *clientState) capture() chan unblockReason {
+	// The capture word, the pending flag and the one-slot mailbox are only touched
+	// while holding captureMu, so capture/release/unblock/isBlocked from any number
+	// of goroutines see a consistent state.
+	cs.captureMu.Lock()
+	defer cs.captureMu.Unlock()
 
-	// When a command such as BLMOVE needs to block, it "captures" the client.
-	//
-	// This operation might collide with other goroutines calling cs.unblock(),
-	// so in that infrequent case, some looping occurs within cs.setLock().
-
-	cs.setLock(CS_UNCAPTURED, CS_CAPTURED)
+	atomic.StoreInt32(&cs.blocked, CS_CAPTURED)
 	return cs.unblockCh
 }
 
-// Releases the client state capture after successful receipt of the unblock
-// signal. After releasing the capture, the non-blocking command processing
-// continues until the command completes.
+// Releases the client state capture after the blocking command stopped waiting
+// (data ready, timeout, or explicit unblock). Any unblock request that arrived for
+// this capture and was not consumed is discarded, so that it cannot end a later
+// blocking command.
 func (cs *clientState) releaseCapture() {
+	cs.captureMu.Lock()
+	defer cs.captureMu.Unlock()
 
-	// A blocked command can become unblocked in these ways:
-	//
-	//  1. Ordinary command completion (the command 'ready' channel gets an item)
-	//  2. Command timeout (the timer's channel gets an item)
-	//  3. Explicit unblock, due to connection loss or direct request (the
-	//     unblock channel gets an item)
-	//
-	// select is issued to wait for the first item from one of those three
-	// channels. After select completes, the content of the other channels
-	// must be buffered to prevent incorrect goroutine blockage, and the
-	// extra channel items must be ignored and discarded.
-	//
-	// Because the unlock channel is used by many commands, it must be
-	// drained here before fully releasing the capture. The other two
-	// channels exist only per command and will not be used again.
-
-	// move to CS_DRAINING to prevent a new cs.unblockCh item in the middle of draining
-	cs.setLock(CS_CAPTURED, CS_DRAINING)
-
-	func() {
-		for {
-			select {
-			case <-cs.unblockCh:
-				// ignore and discard
-			default:
-				// empty - done
-				return
-			}
-		}
-	}()
-
-	// drained - clear unblock state and release the capture
+	select {
+	case <-cs.unblockCh:
+		// ignore and discard
+	default:
+	}
 	atomic.StoreInt32(&cs.unblockPending, 0)
-	cs.setLock(CS_DRAINING, CS_UNCAPTURED)
+	atomic.StoreInt32(&cs.blocked, CS_UNCAPTURED)
 }
 
 // Tells a blocking command (if any) to end with a timeout or error.
 // For a timeout, pass reason as an empty string and isError false.
-func (cs *clientState) unblock(reason string, isError bool) {
-	us := time.Microsecond
+// Returns whether the client was blocked.
+func (cs *clientState) unblock(reason string, isError bool) (wasBlocked bool) {
+	cs.captureMu.Lock()
+	defer cs.captureMu.Unlock()
 
-	for {
-		// N.B., checking is allowed in the midst of capture and release
-		locked := atomic.SwapInt32(&cs.blocked, CS_CHECKING)
-		if locked == CS_CAPTURED {
-			// client is probably in select waiting for the unblock
-			if atomic.CompareAndSwapInt32(&cs.unblockPending, 0, 1) {
-				// only one unblock is posted per capture to prevent
-				// getting stuck here
-				cs.unblockCh <- unblockReason{reason: reason, isError: isError}
-			}
-		}
-		atomic.SwapInt32(&cs.blocked, locked)
-
-		if locked == CS_UNCAPTURED || locked == CS_CAPTURED {
-			return
-		}
-
-		// CS_DRAINING, or CS_CHECKING from another goroutine, try again
-		if us < 4000*time.Microsecond {
-			us *= 2
-		} else {
-			us = time.Microsecond * time.Duration(rand.Intn(200))
-		}
-		time.Sleep(us)
+	if atomic.LoadInt32(&cs.blocked) != CS_CAPTURED {
+		return false
 	}
+
+	if atomic.CompareAndSwapInt32(&cs.unblockPending, 0, 1) {
+		// only one unblock is posted per capture; the mailbox has one slot, so this never blocks
+		cs.unblockCh <- unblockReason{reason: reason, isError: isError}
+	}
+	return true
 }
 
 func (cs *clientState) isBlocked() bool {
-	us := time.Microsecond
+	cs.captureMu.Lock()
+	defer cs.captureMu.Unlock()
 
-	for {
-		blocked := false
-
-		// N.B., checking is allowed in the midst of capture and release
-		locked := atomic.SwapInt32(&cs.blocked, CS_CHECKING)
-		if locked == CS_CAPTURED {
-			blocked = true
-		}
-		atomic.SwapInt32(&cs.blocked, locked)
-
-		if locked == CS_UNCAPTURED || locked == CS_CAPTURED {
-			return blocked
-		}
-
-		// CS_DRAINING, or CS_CHECKING from another goroutine, try again
-		if us < 4000*time.Microsecond {
-			us *= 2
-		} else {
-			us = time.Microsecond * time.Duration(rand.Intn(200))
-		}
-		time.Sleep(us)
-	}
+	return atomic.LoadInt32(&cs.blocked) == CS_CAPTURED
 }
 
 func (cs *clientState) dispatch(input respValue) (output respValue) {
